@@ -39,8 +39,44 @@ def read_keys(fn):
     return keys
 
 
+def self_attr(node):
+    """the first `self.<attr>` read inside an expression (None if there is none)"""
+    for n in ast.walk(node):
+        if isinstance(n, ast.Attribute) and isinstance(n.value, ast.Name) and n.value.id == 'self':
+            return n.attr
+    return None
+
+
+def written_from(fn):
+    """key -> the attribute of self its value is read from (plain `'key': <expr over self.attr>` entries of dict literals)"""
+    out = {}
+    for n in ast.walk(fn):
+        if isinstance(n, ast.Dict):
+            for k, v in zip(n.keys, n.values):
+                s = const_str(k) if k is not None else None
+                if s is not None:
+                    a = self_attr(v)
+                    if a is not None and s not in out:
+                        out[s] = a
+    return out
+
+
+def restored_to(fn):
+    """key -> the attribute of self that set_state assigns from state[key] / state.get(key)"""
+    out = {}
+    for n in ast.walk(fn):
+        if isinstance(n, ast.Assign) and len(n.targets) == 1:
+            t = n.targets[0]
+            if isinstance(t, ast.Attribute) and isinstance(t.value, ast.Name) and t.value.id == 'self':
+                ks = read_keys(n.value)
+                if ks and ks[0] not in out:
+                    out[ks[0]] = t.attr
+    return out
+
+
 def generate(repo):
     rows = []
+    prov = []
     for path, cls in CLASSES:
         tree = ast.parse(open(os.path.join(repo, path)).read())
         node = next((n for n in ast.walk(tree) if isinstance(n, ast.ClassDef) and n.name == cls), None)
@@ -53,6 +89,7 @@ def generate(repo):
         # a get_state that filters what it writes (an `if` inside a comprehension or a conditional around a key) is not a plain record
         cond = any(isinstance(n, ast.comprehension) and n.ifs for n in ast.walk(gs)) or any(isinstance(n, (ast.If, ast.IfExp)) for n in ast.walk(gs))
         rows.append((cls, sorted(set(written_keys(gs))), sorted(set(read_keys(ss))), cond))
+        prov.append((cls, sorted(written_from(gs).items()), sorted(restored_to(ss).items())))
 
     def strs(l):
         return '[%s]' % '; '.join('"%s"' % x for x in l)
@@ -60,11 +97,17 @@ def generate(repo):
            'From Coq Require Import List String Bool.', 'From RQ Require Import Model.Globals Model.PersistKeys.', 'Import ListNotations.', 'Open Scope string_scope.', '',
            'Definition written : list (string * list string) := [%s].' % ';\n  '.join('("%s", %s)' % (c, strs(w)) for c, w, _, _ in rows),
            'Definition read_back : list (string * list string) := [%s].' % ';\n  '.join('("%s", %s)' % (c, strs(r)) for c, _, r, _ in rows),
-           'Definition filtered : list (string * bool) := [%s].' % '; '.join('("%s", %s)' % (c, 'true' if f else 'false') for c, _, _, f in rows), '''
+           'Definition filtered : list (string * bool) := [%s].' % '; '.join('("%s", %s)' % (c, 'true' if f else 'false') for c, _, _, f in rows),
+           'Definition written_from : list (string * list (string * string)) := [%s].' % ';\n  '.join(
+               '("%s", [%s])' % (c, '; '.join('("%s", "%s")' % kv for kv in w)) for c, w, _ in prov),
+           'Definition restored_to : list (string * list (string * string)) := [%s].' % ';\n  '.join(
+               '("%s", [%s])' % (c, '; '.join('("%s", "%s")' % kv for kv in r)) for c, _, r in prov), '''
+Lemma fields_round_trip : forallb (fun ck => forallb (fun k => same_field (fst ck) k written_from restored_to) (snd ck)) round_trip_fields = true.
+Proof. vm_compute. reflexivity. Qed.
 Lemma required_keys_written : forallb (fun ck => forallb (fun k => mem_str k (keys_of (fst ck) written)) (snd ck)) required_keys = true.
 Proof. vm_compute. reflexivity. Qed.
 Lemma required_keys_read_back : forallb (fun ck => forallb (fun k => mem_str k (keys_of (fst ck) read_back)) (snd ck)) required_keys = true.
 Proof. vm_compute. reflexivity. Qed.
 Lemma nothing_filtered_out : forallb (fun c => negb (flag_of c filtered)) unfiltered_classes = true.
 Proof. vm_compute. reflexivity. Qed.''']
-    return '\n'.join(out) + '\n', ['required_keys_written', 'required_keys_read_back', 'nothing_filtered_out']
+    return '\n'.join(out) + '\n', ['required_keys_written', 'required_keys_read_back', 'nothing_filtered_out', 'fields_round_trip']
